@@ -125,7 +125,7 @@ type schedRun struct {
 	graph                               *scheduler.ExecutionGraph
 	snap                                []string
 	stuck                               bool
-	free                                bool      // free-running mode: gates only log
+	free                                bool // free-running mode: gates only log
 	lastCtx                             context.Context
 	ctxUpper                            time.Time // the run context (deadline) was created before this instant
 	dirty                               bool      // something other than the loop moved since the loop was last at loop.top
